@@ -35,23 +35,32 @@ import (
 const (
 	bvKeySubst     = iota // identity key of V, signature by M (over the right data)
 	bvSigOther            // identity key of M, signature by O
-	bvOtherSession        // identity key of V, genuine signature of V made for another session (other static key / certificate key)
+	bvOtherSession        // identity key of V, genuine signature of V made for another session (other static key / certificate key) that the honest side never saw
 	bvEmptySig            // identity key of V, empty signature
 	bvGarbageSig          // identity key of V, well-sized garbage as signature
 	bvHonest              // control: identity key of M, signature by M
+	// warm replay: FIRST the genuine V completes a real handshake with the very same honest process (which
+	// thereby verifies V's genuine credential), THEN Mallory presents a byte-for-byte copy of that credential
+	// (TLS: V's signed-key extension inside a certificate with Mallory's own certificate key; Noise: V's
+	// handshake payload under Mallory's own static key). Anything the honest process remembers about
+	// credentials it has verified must not let the copy pass.
+	bvWarmReplay
 	nNoiseVariants
-	// TLS only
-	bvExtAbsent    = iota - 1 // certificate without the libp2p extension
-	bvExtDup                  // two libp2p extensions: genuine one for M first, forged one for V second
-	bvExtDupRev               // forged one for V first, genuine one for M second
-	bvChain2                  // genuine leaf for M followed by a second certificate
-	bvChain0                  // (client) no certificate at all
-	bvCertSigOther            // genuine extension for M, certificate signed with another key than its own
+)
+
+// TLS only
+const (
+	bvExtAbsent    = nNoiseVariants + iota // certificate without the libp2p extension
+	bvExtDup                               // two libp2p extensions: genuine one for M first, forged one for V second
+	bvExtDupRev                            // forged one for V first, genuine one for M second
+	bvChain2                               // genuine leaf for M followed by a second certificate
+	bvChain0                               // (client) no certificate at all
+	bvCertSigOther                         // genuine extension for M, certificate signed with another key than its own
 	nTLSVariants
 )
 
 var bvNames = []string{"identity-key-substituted", "signature-by-other-key", "credential-of-another-session", "empty-signature", "garbage-signature",
-	"honest-control", "extension-absent", "extension-duplicated", "extension-duplicated-forged-first", "chain-length-2", "chain-length-0", "certificate-signed-by-other-key"}
+	"honest-control", "verified-credential-replayed", "extension-absent", "extension-duplicated", "extension-duplicated-forged-first", "chain-length-2", "chain-length-0", "certificate-signed-by-other-key"}
 
 type byzPlan struct {
 	tls     bool
@@ -95,12 +104,12 @@ func drawByz(g simrt.Gen, isTLS bool) byzPlan {
 		p.honest.noCheck = g.Chance(1, 3)
 	}
 	if isTLS {
-		p.variant = g.Int(nTLSVariants)
+		p.variant = g.Weighted(2, 2, 2, 2, 2, 2, 5, 2, 2, 2, 2, 2, 2)
 		if p.variant == bvChain0 && !p.byzInit {
 			p.variant = bvChain2 // a TLS server cannot omit its certificate
 		}
 	} else {
-		p.variant = g.Int(nNoiseVariants)
+		p.variant = g.Weighted(2, 2, 2, 2, 2, 2, 4)
 	}
 	return p
 }
@@ -109,6 +118,13 @@ type byzResult struct {
 	h         *side
 	completed bool // Mallory's own handshake code ran to the end
 	sig       string
+
+	// warm replay
+	warm       *session        // TLS: the undisturbed session of the genuine V with the honest process
+	warmH      *side           // Noise: the honest process' side of the warm-up handshake
+	warmDone   bool            // Noise: V's own handshake code ran to the end
+	recExt     *pkix.Extension // V's signed-key extension exactly as the honest process received it
+	recPayload []byte          // V's NoiseHandshakePayload exactly as V sent it
 }
 
 func garbageSig(typ int) []byte {
@@ -142,7 +158,19 @@ func mustPub(k crypto.PrivKey) []byte {
 	return b
 }
 
-func byzNoisePayload(p byzPlan, static []byte) []byte {
+// genuineNoisePayload is what an honest process holding k sends for its static key.
+func genuineNoisePayload(k crypto.PrivKey, static []byte) []byte {
+	b, err := proto.Marshal(&pb.NoiseHandshakePayload{IdentityKey: mustPub(k), IdentitySig: mustSign(k, append([]byte(noiseSigPrefix), static...))})
+	if err != nil {
+		panic(err)
+	}
+	return b
+}
+
+func byzNoisePayload(p byzPlan, static []byte, r *byzResult) []byte {
+	if p.variant == bvWarmReplay && r.recPayload != nil {
+		return r.recPayload
+	}
 	m, o, v := keyOf(ident{p.typ, slotM}), keyOf(ident{p.typ, slotI2}), keyOf(ident{p.typ, slotV})
 	msg := append([]byte(noiseSigPrefix), static...)
 	var pl pb.NoiseHandshakePayload
@@ -151,7 +179,7 @@ func byzNoisePayload(p byzPlan, static []byte) []byte {
 		pl.IdentityKey, pl.IdentitySig = mustPub(v), mustSign(m, msg)
 	case bvSigOther:
 		pl.IdentityKey, pl.IdentitySig = mustPub(m), mustSign(o, msg)
-	case bvOtherSession:
+	case bvOtherSession, bvWarmReplay:
 		other, err := fnoise.DH25519.GenerateKeypair(rand.Reader)
 		if err != nil {
 			panic(err)
@@ -192,19 +220,26 @@ func readNoiseFrame(c net.Conn) ([]byte, error) {
 // byzNoise runs Mallory's end of an XX handshake and, if the honest side keeps talking, one
 // transport message in each direction.
 func byzNoise(c net.Conn, p byzPlan, r *byzResult) {
+	r.completed = noisePeer(c, p.byzInit, p.honest.prologue, "M", func(static []byte) []byte { return byzNoisePayload(p, static, r) })
+}
+
+// noisePeer is a hand-written Noise XX endpoint (flynn/noise, cipher suite of p2p/security/noise) that
+// sends payload(own static key) and ignores what the other side presents. It reports whether its own
+// handshake code ran to the end.
+func noisePeer(c net.Conn, initiator bool, prologue []byte, role string, payloadFor func(static []byte) []byte) (completed bool) {
 	defer c.Close()
 	c.SetDeadline(time.Now().Add(40 * time.Second))
 	kp, err := fnoise.DH25519.GenerateKeypair(rand.Reader)
 	if err != nil {
 		panic(err)
 	}
-	hs, err := fnoise.NewHandshakeState(fnoise.Config{CipherSuite: byzSuite, Pattern: fnoise.HandshakeXX, Initiator: p.byzInit, StaticKeypair: kp, Prologue: p.honest.prologue})
+	hs, err := fnoise.NewHandshakeState(fnoise.Config{CipherSuite: byzSuite, Pattern: fnoise.HandshakeXX, Initiator: initiator, StaticKeypair: kp, Prologue: prologue})
 	if err != nil {
 		panic(err)
 	}
-	payload := byzNoisePayload(p, kp.Public)
+	payload := payloadFor(kp.Public)
 	var enc, dec *fnoise.CipherState
-	if p.byzInit {
+	if initiator {
 		m1, _, _, err := hs.WriteMessage(nil, nil)
 		if err != nil || writeNoiseFrame(c, m1) != nil {
 			return
@@ -243,19 +278,22 @@ func byzNoise(c net.Conn, p byzPlan, r *byzResult) {
 		}
 		enc, dec = cs2, cs1
 	}
-	r.completed = true
-	ct, err := enc.Encrypt(nil, nil, []byte(tagOf("M")))
+	ct, err := enc.Encrypt(nil, nil, []byte(tagOf(role)))
 	if err != nil || writeNoiseFrame(c, ct) != nil {
-		return
+		return true
 	}
 	if f, err := readNoiseFrame(c); err == nil {
 		dec.Decrypt(nil, nil, f)
 	}
+	return true
 }
 
 // ---- TLS ------------------------------------------------------------------------------------------
 
 const tlsSigPrefix = "libp2p-tls-handshake:" // libp2p TLS specification, "libp2p Public Key Extension"
+
+// libp2p TLS specification: the libp2p Public Key Extension has OID 1.3.6.1.4.1.53594.1.1
+var libp2pExtensionOID = asn1.ObjectIdentifier{1, 3, 6, 1, 4, 1, 53594, 1, 1}
 
 type signedKey struct {
 	PubKey    []byte
@@ -271,7 +309,7 @@ func certTemplate(sn int64) *x509.Certificate {
 	}
 }
 
-func byzCertificate(p byzPlan) (*tls.Certificate, error) {
+func byzCertificate(p byzPlan, r *byzResult) (*tls.Certificate, error) {
 	m, o, v := keyOf(ident{p.typ, slotM}), keyOf(ident{p.typ, slotI2}), keyOf(ident{p.typ, slotV})
 	certKey, err := ecdsa.GenerateKey(elliptic.P256(), rand.Reader)
 	if err != nil {
@@ -311,6 +349,19 @@ func byzCertificate(p byzPlan) (*tls.Certificate, error) {
 			return nil, err
 		}
 		tmpl.ExtraExtensions = []pkix.Extension{ext}
+	case bvWarmReplay:
+		if r.recExt != nil {
+			// byte-for-byte what the honest process has just verified in V's genuine certificate — inside a
+			// certificate with Mallory's own certificate key
+			tmpl.ExtraExtensions = []pkix.Extension{{Id: r.recExt.Id, Critical: r.recExt.Critical, Value: append([]byte(nil), r.recExt.Value...)}}
+		} else {
+			// the warm-up did not complete: a genuine extension of V for a certificate key of V's
+			ext, err := libp2ptls.GenerateSignedExtension(v, otherKey.Public())
+			if err != nil {
+				return nil, err
+			}
+			tmpl.ExtraExtensions = []pkix.Extension{ext}
+		}
 	case bvEmptySig:
 		tmpl.ExtraExtensions = []pkix.Extension{forge(mustPub(v), nil)}
 	case bvGarbageSig:
@@ -345,7 +396,7 @@ func byzCertificate(p byzPlan) (*tls.Certificate, error) {
 func byzTLS(c net.Conn, p byzPlan, r *byzResult) {
 	defer c.Close()
 	c.SetDeadline(time.Now().Add(40 * time.Second))
-	cert, err := byzCertificate(p)
+	cert, err := byzCertificate(p, r)
 	if err != nil {
 		panic(err)
 	}
@@ -381,10 +432,80 @@ func byzTLS(c net.Conn, p byzPlan, r *byzResult) {
 
 // ---- run + oracles --------------------------------------------------------------------------------
 
+// warmUp lets the genuine V (identity slot V of Mallory's key type) complete an undisturbed handshake
+// with the honest process — same transport object as in the attack that follows — and records V's
+// credential exactly as the honest process received it.
+func (r *byzResult) warmUp(e *pipeEnv, p byzPlan) error {
+	vIdent := ident{p.typ, slotV}
+	if p.tls {
+		// both ends are the real libp2p TLS transport; V's certificate is read from the honest side's
+		// connection state (what it received and verified)
+		vp := party{id: vIdent, tls: true, expect: exMatch}
+		ip, rp := vp, p.honest
+		if !p.byzInit {
+			ip, rp = p.honest, vp
+		}
+		s, err := e.start("warm", ip, rp, edit{}, ident{}, ident{})
+		if err != nil {
+			return err
+		}
+		r.warm = s
+		e.launch(s)
+		e.wg.Wait()
+		h := s.R
+		if !p.byzInit {
+			h = s.I
+		}
+		if h.peerCert != nil {
+			for i := range h.peerCert.Extensions {
+				if h.peerCert.Extensions[i].Id.Equal(libp2pExtensionOID) {
+					r.recExt = &h.peerCert.Extensions[i]
+				}
+			}
+		}
+		return nil
+	}
+	// Noise: the payload travels encrypted, so the genuine V is played by the hand-written endpoint (with V's
+	// key it IS a genuine V); the honest process runs the real transport
+	d, l := e.n.Pipe("10.0.8.1", "10.0.8.2", 4001)
+	mine, theirs := l, d
+	if p.byzInit {
+		mine, theirs = d, l
+	}
+	h := &side{role: "Hwarm", init: !p.byzInit, p: p.honest, truth: vIdent, conn: theirs, timeout: 24 * time.Second}
+	h.partner = &side{role: "V"}
+	h.expectID = resolveExpect(p.honest, vIdent, ident{})
+	var err error
+	if h.st, h.edh, err = e.transportFor(p.honest); err != nil {
+		return err
+	}
+	r.warmH = h
+	e.wg.Add(2)
+	simrt.GoNamed("Hwarm", func() {
+		defer e.wg.Done()
+		h.run()
+	})
+	simrt.GoNamed("V", func() {
+		defer e.wg.Done()
+		r.warmDone = noisePeer(mine, p.byzInit, p.honest.prologue, "V", func(static []byte) []byte {
+			r.recPayload = genuineNoisePayload(keyOf(vIdent), static)
+			return r.recPayload
+		})
+	})
+	e.wg.Wait()
+	return nil
+}
+
 func runByz(e *pipeEnv, p byzPlan) *byzResult {
 	e.o.Logf("%s", p)
-	d, l := e.n.Pipe("10.0.9.1", "10.0.9.2", 4001)
 	r := &byzResult{}
+	if p.variant == bvWarmReplay {
+		if err := r.warmUp(e, p); err != nil {
+			e.o.Trouble = "warm-up: " + err.Error()
+			return nil
+		}
+	}
+	d, l := e.n.Pipe("10.0.9.1", "10.0.9.2", 4001)
 	mine, theirs := l, d // Mallory responds
 	if p.byzInit {
 		mine, theirs = d, l
@@ -394,7 +515,7 @@ func runByz(e *pipeEnv, p byzPlan) *byzResult {
 	h.partner = &side{role: "M"}
 	h.expectID = resolveExpect(p.honest, mIdent, ident{})
 	var err error
-	if h.st, h.edh, err = p.honest.transport(); err != nil {
+	if h.st, h.edh, err = e.transportFor(p.honest); err != nil {
 		e.o.Trouble = err.Error()
 		return nil
 	}
@@ -419,11 +540,34 @@ func runByz(e *pipeEnv, p byzPlan) *byzResult {
 func (r *byzResult) judge(o *common.Outcome, p byzPlan) {
 	h := r.h
 	pr, rl := protoName(p.tls), roleName(h.init)
-	o.Logf("honest side: %s; mallory ran her handshake to the end: %v", h.outcome(), r.completed)
-	r.sig = fmt.Sprintf("byz|%s|%s|%v", p, h.outcome(), r.completed)
 	o.Nontrivial = true
 	o.Fault("byzantine-" + pr + "-" + bvNames[p.variant])
 	what := p.String()
+	if p.variant == bvWarmReplay {
+		warmed := false
+		ww := what + ", warm-up with the genuine V"
+		if r.warm != nil {
+			r.warm.log(o)
+			judge(o, r.warm, ww)
+			judgeControl(o, r.warm, ww)
+			warmed = r.warm.I.hsOK && r.warm.R.hsOK && r.recExt != nil
+			r.sig += fmt.Sprintf("warm|%s>%s|", r.warm.I.outcome(), r.warm.R.outcome())
+		}
+		if wh := r.warmH; wh != nil {
+			o.Logf("warm-up: honest side with the genuine V: %s; V ran its handshake to the end: %v", wh.outcome(), r.warmDone)
+			judgeAuth(o, wh, ww)
+			judgeData(o, wh, ww)
+			if wh.accepts(wh.truth) && (!wh.hsOK || !wh.dataOK) {
+				o.Violate("C01/honest-handshake-refused/"+pr+"/"+rl, "%s: the genuine V was refused (%s)", ww, wh.outcome())
+			}
+			warmed = wh.hsOK
+			r.sig += fmt.Sprintf("warm|%s|%v|", wh.outcome(), r.warmDone)
+		}
+		if warmed {
+			o.Probe("credential-verified-before-replay-" + pr)
+		}
+	}
+	o.Logf("honest side facing mallory: %s; mallory ran her handshake to the end: %v", h.outcome(), r.completed)
 	if h.hsOK && p.variant == bvCertSigOther {
 		// Not a violation of the statement (weaker reading): the X.509 self-signature is redundant for
 		// authentication — the libp2p extension binds M's identity key to the certificate key and TLS'
@@ -451,6 +595,7 @@ func (r *byzResult) judge(o *common.Outcome, p byzPlan) {
 		judgeAuth(o, h, what)
 	}
 	judgeData(o, h, what)
+	r.sig += fmt.Sprintf("byz|%s|%s|%v", p, h.outcome(), r.completed)
 	if p.variant == bvHonest {
 		if h.accepts(h.truth) {
 			if !h.hsOK || !h.dataOK {
